@@ -68,7 +68,8 @@ def seeds(keys):
 
     E = ref.encode_record
     snap = {
-        ref.bucket_rel(a): ("f", E(tomb(a, 10 ** 13)) + E(rec(a, "v1")) + E(rec(a, "v2")) + E(rec("foreign", "v1"))),
+        # (a torn record - what an interrupted append leaves - sits between two records of a: both readers skip it)
+        ref.bucket_rel(a): ("f", E(tomb(a, 10 ** 13)) + E(rec(a, "v1")) + E(rec(a, "v1"))[:41] + E(rec(a, "v2")) + E(rec("foreign", "v1"))),
         ref.bucket_rel(b): ("f", E(rec(b, "v1")) + E(tomb(b, 1)) + E(rec(b, "v2"), 1)),
         ref.bucket_rel(c): ("f", E(rec(c, "v1")) + E(rec(c, "v2")) + E(tomb(c, 2 ** 100))),
         ref.content_rel(s["v1"]): ("f", d["v1"]),
